@@ -71,4 +71,5 @@ run C28 && mut C28 protocol/lavasession/consumer_types.go '	cswp.Lock.Lock()
 run C40 && mut C40 x/pairing/keeper/scores/score.go 'if randomValue <= newScoreSum.RoundInt64() {' 'if randomValue < newScoreSum.RoundInt64() {'
 run C16 && mut C16 x/epochstorage/keeper/fixated_params.go '	} else if latestParamChange >= prevEpochStart {' '	} else if latestParamChange > prevEpochStart {'
 run C13 && mut C13 x/fixationstore/types/fixationstore.go '		if latestEntry.HasDeleteAt() {' '		if latestEntry.HasDeleteAt() && block > ctxBlock {'
+run C02 && mut C02 x/pairing/keeper/filters/frozen_providers_filter.go 'return stakeEntry.StakeAppliedBlock > currentEpoch' 'return stakeEntry.StakeAppliedBlock > currentEpoch+1000'
 exit 0
